@@ -18,7 +18,12 @@ def gen_field(rng, nd=None):
     cell = [F(rng.choice([1, 3, 5]), 2 ** rng.randint(0, 4)) for _ in range(nd)]   # anisotropic, dyadic
     p1 = [F(rng.randint(-40, 40), 4) for _ in range(nd)]
     vals = [F(rng.randint(-50, 50), rng.choice([1, 1, 2, 4])) for _ in range(math.prod(sh) * nvdim)]
-    names = rng.sample(["x", "y", "z", "a", "b", "r", "t", "q", "V", "S", "n", "k"], nd) if (rng.random() < 0.5 or nd > 3) else None
+    # any dimension names: one letter, attribute-like, several characters (the DEFAULT names of a 4-d mesh are
+    # x0..x3), names contained in one another, the empty string, letters of the bc keywords
+    names = rng.sample(["x", "y", "z", "a", "b", "r", "t", "q", "V", "S", "n", "k", "e", "u", "d", "i", "xy", "ab",
+                        "x0", "x10", "long_name", "", "T", "X"], nd) if rng.random() < 0.6 else None
+    one_letter = [d for d in (names or (["x", "y", "z"][:nd] if nd <= 3 else [])) if len(d) == 1]
+    bc = rng.choice(["", "", "neumann", "dirichlet", "".join(rng.sample(one_letter, rng.randint(0, len(one_letter))))])
     dtype = rng.choice(["float", "float", "int", "none"])
     if dtype == "int":
         vals = [F(int(v)) for v in vals]
@@ -27,7 +32,7 @@ def gen_field(rng, nd=None):
     # operations carried out on the field's mesh BEFORE the integral is taken (stale-cache / in-place paths)
     pre = rng.choice([None, None, "scale2", "scale1/2", "translate"])
     return dict(sh=sh, nvdim=nvdim, cell=[g.qs(x) for x in cell], p1=[g.qs(x) for x in p1],
-                vals=[g.qs(v) for v in vals], dims=names, dtype=dtype, valid=valid, pre=pre,
+                vals=[g.qs(v) for v in vals], dims=names, bc=bc, dtype=dtype, valid=valid, pre=pre,
                 layout=rng.choice(LAYOUTS), layout_set=rng.random() < 0.5)
 
 
@@ -39,7 +44,7 @@ def build(c, shift=None):
         p1 = [a + s for a, s in zip(p1, shift)]
     p2 = [a + k * h for a, k, h in zip(p1, sh, cell)]
     region = df.Region(p1=[float(x) for x in p1], p2=[float(x) for x in p2], dims=c.get("dims"))
-    mesh = df.Mesh(region=region, n=sh)
+    mesh = df.Mesh(region=region, n=sh, bc=c.get("bc", ""))   # integrals and means do not depend on bc
     dt = {"float": float, "int": int, "none": None}[c.get("dtype", "float")]
     arr = np.array([float(F(x)) for x in c["vals"]], dtype=dt or float).reshape(*sh, c["nvdim"])
     valid = np.array(c.get("valid", [True] * math.prod(sh)), dtype=bool).reshape(*sh)
